@@ -68,6 +68,8 @@ def matrix(tier, rnd):
             for _ in range(n):
                 o = rand_opts(rnd)
                 add(P.lifecycle_scenario(0, cause, point, rnd.choice(["none", "none", "senders", "all"]), opts=o, modes_history=rand_history(rnd, o)))
+    for _ in range(4 if tier == "quick" else 32):
+        add(P.lifecycle_scenario(0, "cancel", "before-run", "none", opts=rand_opts(rnd)))
     # all 2^5 option subsets, quit / kill
     for bits in range(32):
         o = {}
@@ -83,6 +85,16 @@ def matrix(tier, rnd):
             o["focus"] = True
         for cause in ("quit", "kill"):
             add(P.lifecycle_scenario(0, cause, "idle", "none", opts=o, modes_history=rand_history(rnd, o)))
+    # input on a real terminal device that hangs up before the exit: restoring the line discipline fails, the modes
+    # must be reset all the same
+    for _ in range(4 if tier == "quick" else 24):
+        o = rand_opts(rnd)
+        hist = [h for h in rand_history(rnd, o) if h.get("b") != "exec"]
+        cause = rnd.choice(["quit", "kill"])
+        script = [P.W("started"), P.W("idle")] + [P.DO("send", msg=m) for m in hist] + [P.W("idle"), P.DO("pty-hangup"), P.DO("sleep", us=20000),
+                  P.DO("send", msg=P.U(3)), P.W("idle"), P.DO("quit") if cause == "quit" else P.DO("kill"), P.W("returned")]
+        s = P.scenario(0, script, opts=o, inp={"kind": "ptyin"}, parallel_ok=True)
+        add((s, {"cause": cause, "point": "idle:pty-hangup", "pending": "none", "causes": [cause], "opts": o, "modes_history": [m.get("b") for m in hist]}))
     # start-up failure after the terminal was initialised: a regular file as input (epoll refuses it)
     for _ in range(4 if tier == "quick" else 32):
         o = rand_opts(rnd)
@@ -148,7 +160,7 @@ def run(res, tier, seed):
 def replay(res, path):
     d = json.load(open(path))
     m = d.get("scenario_meta")
-    if not m or m["point"].startswith("startup"):
+    if not m or m["point"].startswith("startup") or "pty-hangup" in m["point"]:
         raise C.Fail("replay: run ./check C05")
     okb, out = C.build_harness()
     if not okb:
